@@ -139,7 +139,8 @@ def FRAMES():
 D = 4  # divisions per measure (4/4, divs 1)
 
 
-def build_repeat_part(n, repeats=(), endings=(), dacapo=None, fine=None, tie=None, slur=None, divs_change=None, ts_change=None):
+def build_repeat_part(n, repeats=(), endings=(), dacapo=None, fine=None, tie=None, slur=None, divs_change=None, ts_change=None,
+                      segno=None, dalsegno=None, tocoda=None, coda=None):
     """n measures, each with one whole note of pitch 60+i (id n<i>); marks at measure boundaries"""
     sc = _sc()
     part = sc.Part("P", quarter_duration=1)
@@ -162,6 +163,14 @@ def build_repeat_part(n, repeats=(), endings=(), dacapo=None, fine=None, tie=Non
         part.add(sc.DaCapo(), D * (dacapo + 1))
     if fine is not None:
         part.add(sc.Fine(), D * (fine + 1))
+    if segno is not None:
+        part.add(sc.Segno(), D * segno)
+    if dalsegno is not None:
+        part.add(sc.DalSegno(), D * (dalsegno + 1))
+    if tocoda is not None:
+        part.add(sc.ToCoda(), D * (tocoda + 1))
+    if coda is not None:
+        part.add(sc.Coda(), D * coda)
     if tie is not None:
         a, b = notes[tie], notes[tie + 1]
         a.tie_next, b.tie_prev = b, a
@@ -171,7 +180,7 @@ def build_repeat_part(n, repeats=(), endings=(), dacapo=None, fine=None, tie=Non
     return part
 
 
-def oracle(n, repeats, endings, dacapo, fine, mode):
+def oracle(n, repeats, endings, dacapo, fine, mode, segno=None, dalsegno=None, tocoda=None, coda=None):
     """measure play order, from the notation.  mode 'max': each repeated section the notated number of times (2, or the highest
     ending number) with the matching ending; da capo honoured once, repeats taken again after the leap, stop at Fine after it.
     mode 'min': every section once, of a group of endings only the last one, no leap."""
@@ -216,6 +225,14 @@ def oracle(n, repeats, endings, dacapo, fine, mode):
             count = {rep: 1 for rep in repeats}
             i = 0
             continue
+        if dalsegno is not None and i == dalsegno and not after_dc:
+            after_dc = True
+            count = {rep: 1 for rep in repeats}
+            i = segno
+            continue
+        if after_dc and tocoda is not None and coda is not None and i == tocoda:
+            i = coda
+            continue
         i += 1
     return seq
 
@@ -232,6 +249,11 @@ def grammar(tier):
         ("dacapo_fine", dict(n=4, dacapo=3, fine=1)),
         ("repeat_then_dacapo_fine", dict(n=4, repeats=[(0, 0)], dacapo=3, fine=1)),
         ("dacapo_without_fine", dict(n=3, dacapo=2)),
+        ("dalsegno_at_the_end", dict(n=4, segno=1, dalsegno=3)),
+        ("dalsegno_al_fine", dict(n=4, segno=1, dalsegno=3, fine=2)),
+        ("dacapo_followed_by_more_music", dict(n=4, dacapo=2)),
+        ("dalsegno_al_coda", dict(n=5, segno=1, dalsegno=3, tocoda=2, coda=4)),
+        ("dacapo_al_coda", dict(n=4, dacapo=2, tocoda=0, coda=3)),
         ("repeat_then_dacapo_without_fine", dict(n=2, repeats=[(0, 0)], dacapo=1)),
         ("tie_over_repeat_boundary", dict(n=3, repeats=[(0, 1)], tie=1)),
         ("tie_inside_repeat", dict(n=3, repeats=[(0, 1)], tie=0)),
@@ -266,9 +288,14 @@ def bounded(b):
         mk = lambda: build_repeat_part(**kw)
         n = kw["n"]
         reps, ends = kw.get("repeats", ()), kw.get("endings", ())
-        nontriv = bool(reps or kw.get("dacapo") is not None)
+        nontriv = bool(reps or kw.get("dacapo") is not None or kw.get("dalsegno") is not None)
+        nav = {k: kw.get(k) for k in ("segno", "dalsegno", "tocoda", "coda")}
+        jump_at = kw.get("dacapo") if kw.get("dacapo") is not None else kw.get("dalsegno")
+        mid_jump = jump_at is not None and jump_at < n - 1  # music follows the jump mark (as with a coda)
         for upd in (True, False):
             case = {"shape": name, "update_ids": upd}
+            if mid_jump:
+                case["jump_mark_followed_by_more_music"] = True
             part = mk()
             before = G.fingerprint(part)
             ok, un = b.guard("unfold/maximal_no_exception", case, lambda: sc.unfold_part_maximal(part, update_ids=upd))
@@ -276,7 +303,7 @@ def bounded(b):
                 continue
             b.case("unfold/original_not_modified", G.fingerprint(part) == before, case, "fingerprint of the original changed", nontrivial=nontriv)
             seq, notes = _measure_seq(un)
-            want = oracle(n, reps, ends, kw.get("dacapo"), kw.get("fine"), "max")
+            want = oracle(n, reps, ends, kw.get("dacapo"), kw.get("fine"), "max", **nav)
             b.case("unfold/maximal_play_order", seq == want, case, "measures played %r, notation says %r" % (seq, want), nontrivial=nontriv)
             if seq == want:
                 _check_copy(b, case, part, un, want, upd, nontriv)
@@ -284,22 +311,24 @@ def bounded(b):
             if ok2:
                 b.case("unfold/second_call_same_result", G.fingerprint(un2) == G.fingerprint(un), case, "second unfolding differs", nontrivial=nontriv)
         case = {"shape": name}
+        if mid_jump:
+            case["jump_mark_followed_by_more_music"] = True
         part = mk()
         before = G.fingerprint(part)
         ok, un = b.guard("unfold/minimal_no_exception", case, lambda: sc.unfold_part_minimal(part))
         if ok:
             seq, _ = _measure_seq(un)
-            want = oracle(n, reps, ends, kw.get("dacapo"), kw.get("fine"), "min")
+            want = oracle(n, reps, ends, kw.get("dacapo"), kw.get("fine"), "min", **nav)
             b.case("unfold/minimal_play_order", seq == want, case, "measures played %r, expected each section once with the last ending %r" % (seq, want), nontrivial=nontriv)
             b.case("unfold/original_not_modified", G.fingerprint(part) == before, case, "fingerprint of the original changed (minimal)", nontrivial=nontriv)
         ok, variants = b.guard("unfold/variants_no_exception", case, lambda: list(sc.iter_unfolded_parts(part)))
         if ok:
             b.case("unfold/original_not_modified", G.fingerprint(part) == before, case, "fingerprint of the original changed (iter_unfolded_parts)", nontrivial=nontriv)
-            simple = not ends and kw.get("dacapo") is None and all(not (a != c and a[0] <= c[0] and c[1] <= a[1]) for a in reps for c in reps)
+            simple = not ends and kw.get("dacapo") is None and kw.get("dalsegno") is None and all(not (a != c and a[0] <= c[0] and c[1] <= a[1]) for a in reps for c in reps)
             if simple:
                 b.case("unfold/two_to_the_r_variants", len(variants) == 2 ** len(reps), case, "%d variants for %d independent simple repeats" % (len(variants), len(reps)), nontrivial=nontriv)
             seqs = [_measure_seq(v)[0] for v in variants]
-            if not reps and not ends and kw.get("dacapo") is None:
+            if not reps and not ends and kw.get("dacapo") is None and kw.get("dalsegno") is None:
                 plain = list(sc.iter_unfolded_parts(part, update_ids=False))
                 b.case("unfold/no_repeat_structure_gives_equal_part", len(plain) == 1 and _same_content(part, plain[0]), case,
                        "a part without repeat structure does not unfold to an equal part")
